@@ -3,6 +3,7 @@ import re
 
 from ..engine import CALLS, CTORS, atomic_ops, atomic_field_of, callee_fq, path, unwrap
 from ..flow import TooManyPaths
+from ..facts import short
 from ..rcu import RCU, NODE, ZLN, all_paths, insertion_body, forwards_to_sibling, node_names
 from .. import common
 from . import c05
@@ -31,12 +32,43 @@ def run(ctx):
     ctx.step(construct, ctx)
     ctx.step(atomic_ops_rule, ctx)
     ctx.step(link_rule, ctx)
+    ctx.step(init_rule, ctx)
     # a traversal is only protected once its handle is in the log: every way of reaching the list through a handle registers
     ctx.step(c05.register, ctx, "C12.register", True, False)
     from . import c13
     ctx.step(c13.uaf, ctx, "C12.uaf", [f for f in ctx.fb.functions(rec=RCU)], floor=10)
     ctx.step(common.atomic_floors, ctx, "C12.orders", [RCU, NODE], floor=20, files=["rcu_list.hpp"])
     ctx.step(common.witnesses, ctx, "C12.witness", ["C12"])
+
+
+def init_rule(ctx, rid="C12.init"):
+    """a new list is empty for every way of creating it: m_head and m_tail have a default member initialiser, or every
+    constructor that is not defaulted initialises them (a defaulted constructor without member initialisers leaves the
+    two atomics indeterminate for `rcu_list l;`)"""
+    ctx.rule(rid, "every constructor leaves m_head and m_tail null", floor=2)
+    for r in ctx.fb.records(tmpl=RCU):
+        site = "%s:%d" % (short(r.file), r.line)
+        for fld in ("m_head", "m_tail"):
+            fl = r.field(fld)
+            if fl is None:
+                ctx.broken("rcu_list::%s not found (anchor vanished)" % fld)
+            nsdmi = bool(fl.get("has_init"))
+            ctors = [m for m in r.methods if m["kind"] == "ctor" and not m.get("copy_ctor") and not m.get("move_ctor") and not m.get("deleted")]
+            bad = []
+            if not nsdmi:
+                for m in ctors:
+                    if m.get("defaulted") or m.get("implicit"):
+                        bad.append("the defaulted default constructor")
+                        continue
+                    gs = [g for g in ctx.fb.functions(rec=RCU, raw=True) if g.kind == "ctor" and g.recq == r.qname and g.id == m.get("id")]
+                    for g in gs:
+                        inited = any(i.get("field") == fld and i.get("written") for i in g.inits) or any(
+                            op["op"] == "store" and op["obj"] == "this." + fld for op in atomic_ops(g))
+                        if not inited:
+                            bad.append("constructor at %s" % g.where)
+            ctx.ob(rid, not bad, site, "%s is null in every freshly constructed list" % fld, "" if not bad else
+                   "%s has no default member initialiser and %s does not set it: `rcu_list<T> l;` starts with an indeterminate "
+                   "pointer and traversals walk garbage" % (fld, bad[0]), inst=r.qname)
 
 
 def link_rule(ctx, rid="C12.link"):
